@@ -27,11 +27,12 @@ import NemoVerif.Lemmas.V1Sub
 import NemoVerif.Lemmas.V1Multi
 import NemoVerif.Lemmas.V1FollowDo
 import NemoVerif.Lemmas.V1Stack
+import NemoVerif.Lemmas.V1StackFollow
 import NemoVerif.Lemmas.V1Run
 import NemoVerif.Lemmas.V1Mut
 import NemoVerif.Generated.LlmFlowsV1
 namespace NemoVerif.C14
-open NemoVerif.V1Interp NemoVerif.V1Struct NemoVerif.V1Follow NemoVerif.V1Sub NemoVerif.V1Multi NemoVerif.V1Run NemoVerif.V1RunL NemoVerif.V1Mut NemoVerif.V1FollowDo NemoVerif.V1Stack
+open NemoVerif.V1Interp NemoVerif.V1Struct NemoVerif.V1Follow NemoVerif.V1Sub NemoVerif.V1Multi NemoVerif.V1Run NemoVerif.V1RunL NemoVerif.V1Mut NemoVerif.V1FollowDo NemoVerif.V1Stack NemoVerif.V1StackFollow
 
 /-- The compiler as the code has it (compile sub-blocks, then annotate every element of a loop body
     with `_next_on_break`/`_next_on_continue` unless an inner loop already did) computes the same
@@ -388,7 +389,7 @@ def exLib : Lib := [("s", exSub)]
 def exCfgs : Cfgs := [mkCfg "main" exMain, { id := "s", elems := compile exSub, isSubflow := true }]
 
 /-- non-vacuity of `LibOK` -/
-example : LibOK exCfgs exLib := by
+theorem exLibOK : LibOK exCfgs exLib := by
   intro n q h
   by_cases hn : n = "s"
   · subst hn
@@ -701,14 +702,10 @@ example :
 
 /-! ## Phase 4 (1b): `next_step_is_flow_statement` for flows WITH subflow calls -/
 
-/-- **next_step_is_flow_statement_do_partial.**
-    FULL STATEMENT (not proved at the level of whole histories): for a dialog flow whose statements include `do`
-    calls of subflows that may themselves wait for the user / a bot message / an action, and every history that follows
-    the flow through its callees, `computeNextSteps` returns the context updates plus the event of the next statement
-    of the INNERMOST running callee, and after a callee's last statement of the statement after the `do`.
-    (What IS proved for blocking callees: `slide_with_subflows_simulates` — every single call / push / wait — and
-    `do_returns_after_call` — the return —, at any nesting depth, at the level of `slideWithSubflows` / the resume pass.)
-    PROVED HERE, for whole histories of any length: the same statement for flows whose callees do NOT block — subflows
+/-- **next_step_is_flow_statement_do_partial** (the special case of callees that do not block, with a uid-free
+    reference; the full statement — callees that wait for the user / a bot message / an action — is
+    `next_step_is_flow_statement_with_do` below).
+    For whole histories of any length: `next_step_is_flow_statement` for flows whose callees do NOT block — subflows
     made of assignments, conditionals, loops and further such calls ("subroutines"), at any nesting depth, with the
     subflow configs present among the flow configs (`Setup`: the dialog flow first, then subflow configs only, every
     library body known and non-empty).  `followAllD` is the source-level reference: as `followAll`, with `runD` (run the
@@ -789,5 +786,57 @@ theorem resume_unwinds_stack (cfgs : Cfgs) (lib : Lib) (hlib : LibOK cfgs lib) (
 /-- the fix-point as the code has it is `resumeFrom` from the start of a fresh pass -/
 theorem resume_loop_is_resumeFrom (cfgs : Cfgs) (K : Nat) (ns : State) :
     resumeLoop true (K + 1) cfgs ns = resumeFrom cfgs K 1000 ns 0 false := resumeLoop_eq cfgs K ns
+
+
+/-! ## Phase 4 (1d): `next_step_is_flow_statement` for flows with subflow calls that BLOCK — whole histories -/
+
+/-- **next_step_is_flow_statement_with_do.**  The lift of `next_step_is_flow_statement` to dialog flows whose statements
+    include `do` calls of subflows which may themselves wait for the user, a bot message or an action, and call further
+    subflows — any nesting depth, every history of any length that follows the flow THROUGH its callees.
+    `followAllK` is the source-level reference: its state is the context, the STACK of waiting frames (innermost first;
+    a frame = flow name, body, the address of the statement it waits at; frames are named by the interpreter's uid
+    counter, which the reference threads along) and what is decided.  On the event that matches the innermost
+    frame's statement the stack is unwound by `unwindS`: the innermost flow continues after its statement
+    (`runS`: its own statements, calls pushing new frames); if it runs to its end, its caller continues after the
+    `do`, and so on (`exec`/`execFrom` at every level); the start intent of the idle flow pushes the dialog flow's
+    frame; ContextUpdate, StartInternalSystemAction and non-triggering events are as in `followAll`.  What is decided
+    is the context updates since the event plus the event of the statement of the INNERMOST waiting flow.
+    `SetupK`: the flow configs are the dialog flow (compiled from `p`, all defaults) followed by subflow configs
+    (default trigger types, not extensions); every library body is among them, compiled and non-empty.
+    Conclusion: `computeNextSteps` (with both repairs) returns exactly the reference's decision — or the model's fixed
+    fuel ran out.  Invariant behind it (`V1StackFollow.InvK`): the interpreter's flow states are — in any order, among
+    COMPLETED left-overs — the images of the stack's frames (`V1Stack.Shape`: the innermost ACTIVE at its statement,
+    every caller INTERRUPTED with its head past its `do` and `interrupted_by` = its callee's uid, uids pairwise
+    distinct and below the counter); `resume_unwinds_stack` carries the resume fix-point. -/
+theorem next_step_is_flow_statement_with_do (cfgs : Cfgs) (id : String) (p : Prog) (lib : Lib) (f : Nat) (H : List Event) (S : SK)
+    (hS : SetupK cfgs id p lib) (hshape : (match p with | .step (.user _) _ => true | _ => false) = true)
+    (hfollow : followAllK lib id p (startIntent p) f { ctx := [], ctr := 0, stk := [], dec := [] } H = some S) :
+    computeNextSteps true cfgs H = .oof ∨ computeNextSteps true cfgs H = .ok S.dec := by
+  cases p with
+  | step s r =>
+    cases s with
+    | user i0 => exact follow_decidesK hS f H S hfollow
+    | bot i => simp at hshape
+    | exec n ps rk => simp at hshape
+    | doFlow n => simp at hshape
+  | nil => simp at hshape
+  | set k e r => simp at hshape
+  | ite c t e r => simp at hshape
+  | «while» c b r => simp at hshape
+  | brk r => simp at hshape
+  | cont r => simp at hshape
+
+/-- non-vacuity of `SetupK`: `main = user hi / do s / bot bye`, `s = user u1` (a callee that waits for the user) -/
+example : SetupK exCfgs "main" exMain exLib :=
+  ⟨⟨_, rfl, by simp⟩, exLibOK⟩
+
+/-- non-vacuity (finite facts): after `user hi` the callee `s` waits for `user u1` — nothing is decided, the stack is
+    [s, main]; `user u1` ends `s`, `main` continues after its `do` and decides `bot bye`. -/
+example :
+    (followAllK exLib "main" exMain "hi" 20 { ctx := [], ctr := 0, stk := [], dec := [] } [.userIntent "hi"]).map (fun S => (S.dec, S.stk.map (·.name)))
+      = some ([], ["s", "main"]) ∧
+    (followAllK exLib "main" exMain "hi" 20 { ctx := [], ctr := 0, stk := [], dec := [] } [.userIntent "hi", .userIntent "u1"]).map (fun S => (S.dec, S.stk.map (·.name)))
+      = some ([.bot "bye"], ["main"]) := by
+  decide
 
 end NemoVerif.C14
